@@ -739,8 +739,56 @@ func headerViaReader(r *core.Run, proto *spec.Proto, img []byte) {
 
 // interopMisfit: one fixed-width value is made longer than its slot; encoding
 // must fail with an error and emit nothing.
+// declaredLengthMisfit: the body of a message travels in a slot whose width is the length field in front of it. A
+// body that is longer than the length the caller declared (down to a declared length of 0) does not fit that slot.
+// Which encoders take the declared length as the slot is the library's design (the others derive the length from
+// the body); for those that do, the misfit must be refused like any other.
+var declaredLengthSlot = map[string]bool{"cmpp30.Submit": true, "cmpp30.Deliver": true, "smgp30.Submit": true, "smgp30.Deliver": true, "sgip12.Submit": true, "sgip12.Deliver": true}
+
+func declaredLengthMisfit(r *core.Run, proto *spec.Proto, opt spec.GenOpt) bool {
+	var cands []*spec.PDU
+	for _, pd := range proto.PDUs {
+		if declaredLengthSlot[pd.Site()] {
+			cands = append(cands, pd)
+		}
+	}
+	if len(cands) == 0 {
+		return false
+	}
+	pd := cands[int(r.Cfg.Index/5)%len(cands)]
+	m := spec.Gen(r.C, pd, opt)
+	for _, f := range pd.Fields {
+		if f.Kind != spec.KOctets || f.Ref == "" {
+			continue
+		}
+		v := m.F[f.Name]
+		if len(v.B) == 0 {
+			v.B = []byte{byte(r.Cfg.Index)}
+		}
+		declared := []int{0, len(v.B) - 1, len(v.B) / 2}[int(r.Cfg.Index/7)%3]
+		m.V(f.Ref).U = uint64(declared)
+		site := pd.Site()
+		r.Fault("misfit_value")
+		pdu := ToGo(m)
+		var b []byte
+		var err error
+		if p := r.Call(site+".IEncode", func() { b, err = pdu.IEncode() }); p != nil {
+			r.Fail("C01", "panic", site, "IEncode-misfit/"+p.Kind, "IEncode panicked on a body of %d octets declared as %d: %s at %s", len(v.B), declared, p.Value, p.Frame)
+			return true
+		}
+		if err == nil {
+			r.Fail("C01", "misfit-accepted", site, "field="+f.GoField+"/declared-length", "%s holds %d octets, the length field in front of it says %d: IEncode returned %d octets and no error", f.GoField, len(v.B), declared, len(b))
+		}
+		return true
+	}
+	return false
+}
+
 func interopMisfit(r *core.Run, proto *spec.Proto, opt spec.GenOpt) {
 	c := r.C
+	if r.Cfg.Index%5 == 4 && declaredLengthMisfit(r, proto, opt) {
+		return
+	}
 	// pick a PDU type that has a fixed-width slot
 	var cands []*spec.PDU
 	for _, pd := range proto.PDUs {
